@@ -260,4 +260,449 @@ theorem scope_returns_after_task_ends {es₁ : List Event} {σ₁ : State} (h1 :
   · simp [init] at h0
   · exact h0
 
+
+/-! ## 2. The result: the root's result iff all tasks succeeded, else the first error; a panic is re-raised -/
+
+/-- at the return every failed task of the scope is in the `set_err` log, with its kind -/
+theorem failed_task_in_log {σ : State} (hr : Reach σ) {s : Nat} (hs : (σ.scope s).phase ≠ .absent)
+    (htg : (σ.scope s).tgd = true) (t : Nat) (hp : (σ.task t).phase ≠ .absent) (hsc : (σ.task t).scope = s)
+    (hout : (σ.task t).out ≠ .ok) : (t, outIsPanic (σ.task t).out) ∈ (σ.scope s).errLog := by
+  have hI := hr.inv
+  have hrel := (hI.a.all_released_of_tgd hs htg).2.2 t hp hsc
+  have hrep := hI.b.released_reported t hrel hout
+  obtain ⟨p, hm⟩ := (hI.b.reported_in t hrep).2
+  rw [hsc] at hm
+  have := (hI.b.log_sound s t p hm).2.2.2.2
+  rw [this]; exact hm
+
+/-- **`result_root_if_all_ok`** — `run!` returns `Ok(v)` exactly when every task of the scope returned `Ok`, and then
+`v` is the value the root task returned. -/
+theorem result_root_iff_all_ok {σ : State} (hr : Reach σ) {s : Nat} {r : Res} (hg : enabled σ (.ret s r) = true) (v : Nat) :
+    r = .ok v ↔ (v = (σ.task (σ.scope s).root).val ∧
+      ∀ t, (σ.task t).phase ≠ .absent → (σ.task t).scope = s → (σ.task t).out = .ok) := by
+  have hI := hr.inv
+  simp [enabled] at hg
+  obtain ⟨⟨hl, htg⟩, hres⟩ := hg
+  have hs : (σ.scope s).phase ≠ .absent := by simp [hl]
+  have hslot := hI.b.slot_eq s
+  have hroot := hI.d.root_scope s hs
+  constructor
+  · intro hrv
+    rw [hrv] at hres
+    have hempty : (σ.scope s).slot = .empty := by
+      cases hsl : (σ.scope s).slot <;> simp [resOf, hsl] at hres
+      rfl
+    have hlog : (σ.scope s).errLog = [] := (slotOf_eq_empty _ _).mp (hslot ▸ hempty)
+    simp [resOf, hempty] at hres
+    split at hres
+    · simp at hres
+      refine ⟨hres, ?_⟩
+      intro t hp hsc
+      cases hout : (σ.task t).out with
+      | ok => rfl
+      | err => have := failed_task_in_log hr hs htg t hp hsc (by simp [hout]); simp [hlog] at this
+      | panic => have := failed_task_in_log hr hs htg t hp hsc (by simp [hout]); simp [hlog] at this
+    · simp at hres
+  · intro ⟨hv, hall⟩
+    have hlog : (σ.scope s).errLog = [] := by
+      cases hl' : (σ.scope s).errLog with
+      | nil => rfl
+      | cons a l =>
+        have := hI.b.log_sound s a.1 a.2 (by rw [hl']; simp)
+        have hp : (σ.task a.1).phase ≠ .absent := by rcases this.2.2.1 with h | h <;> simp [h]
+        exact absurd (hall a.1 hp this.1) this.2.2.2.1
+    have hempty : (σ.scope s).slot = .empty := by rw [hslot]; exact (slotOf_eq_empty _ _).mpr hlog
+    rw [hres, hv]
+    simp [resOf, hempty, hall _ hroot.2 hroot.1]
+
+/-- **`error_is_first`** — if `run!` returns `Err(v)`, then no task of the scope panicked, and `v` is the error
+returned by the task whose `set_err` call is the *first* one in the order of the `err` mutex (`errLog` is that order,
+see `errLog_is_trace_order`): no other task of the scope completed a failure before it. -/
+theorem error_is_first {σ : State} (hr : Reach σ) {s : Nat} {r : Res} (hg : enabled σ (.ret s r) = true) (v : Nat)
+    (hrv : r = .err v) :
+    ∃ t rest, (σ.scope s).errLog = (t, false) :: rest ∧ (∀ e ∈ (σ.scope s).errLog, e.2 = false) ∧
+      (σ.task t).scope = s ∧ (σ.task t).out = .err ∧ (σ.task t).val = v := by
+  have hI := hr.inv
+  simp [enabled] at hg
+  obtain ⟨⟨hl, htg⟩, hres⟩ := hg
+  have hslot := hI.b.slot_eq s
+  rw [hrv] at hres
+  have : ∃ t, (σ.scope s).slot = .err t v := by
+    cases hsl : (σ.scope s).slot with
+    | empty => simp [resOf, hsl] at hres; split at hres <;> simp at hres
+    | panic => simp [resOf, hsl] at hres
+    | err t v' => simp [resOf, hsl] at hres; exact ⟨t, by rw [hres]⟩
+  obtain ⟨t, hsl⟩ := this
+  rw [hsl] at hslot
+  unfold slotOf at hslot
+  split at hslot
+  · simp at hslot
+  · rename_i hany
+    cases hlog : (σ.scope s).errLog with
+    | nil => simp [hlog] at hslot
+    | cons a rest =>
+      obtain ⟨a1, a2⟩ := a
+      simp [hlog] at hslot
+      obtain ⟨rfl, hv⟩ := hslot
+      have hnone : ∀ e ∈ (σ.scope s).errLog, e.2 = false := by
+        intro e he
+        cases he2 : e.2 with
+        | false => rfl
+        | true => exact absurd (List.any_eq_true.mpr ⟨e, he, he2⟩) hany
+      have ha2 : a2 = false := by
+        have := hnone (t, a2) (by rw [hlog]; simp)
+        exact this
+      subst ha2
+      have hsnd := hI.b.log_sound s t false (by rw [hlog]; simp)
+      refine ⟨t, rest, rfl, by rw [← hlog]; exact hnone, hsnd.1, ?_, hv.symm⟩
+      have h1 := hsnd.2.2.2.1
+      have h2 := hsnd.2.2.2.2
+      cases hout : (σ.task t).out <;> simp [hout, outIsPanic] at h1 h2 ⊢
+
+/-- **`panic_reraised_iff`** — `run!` re-raises a panic exactly when some task of the scope panicked (and, by
+`run_returns_after_all_tasks`, only once all tasks have finished). -/
+theorem panic_reraised_iff {σ : State} (hr : Reach σ) {s : Nat} {r : Res} (hg : enabled σ (.ret s r) = true) :
+    r = .panic ↔ ∃ t, (σ.task t).phase ≠ .absent ∧ (σ.task t).scope = s ∧ (σ.task t).out = .panic := by
+  have hI := hr.inv
+  have hg' := hg
+  simp [enabled] at hg
+  obtain ⟨⟨hl, htg⟩, hres⟩ := hg
+  have hs : (σ.scope s).phase ≠ .absent := by simp [hl]
+  have hslot := hI.b.slot_eq s
+  constructor
+  · intro hrv
+    rw [hrv] at hres
+    have hsl : (σ.scope s).slot = .panic := by
+      cases hsl : (σ.scope s).slot with
+      | empty => simp [resOf, hsl] at hres; split at hres <;> simp at hres
+      | panic => rfl
+      | err t v' => simp [resOf, hsl] at hres
+    rw [hsl] at hslot
+    unfold slotOf at hslot
+    split at hslot
+    · rename_i hany
+      obtain ⟨e, he, he2⟩ := List.any_eq_true.mp hany
+      have hsnd := hI.b.log_sound s e.1 e.2 he
+      refine ⟨e.1, by rcases hsnd.2.2.1 with h | h <;> simp [h], hsnd.1, ?_⟩
+      have h2 := hsnd.2.2.2.2
+      rw [he2] at h2
+      cases hout : (σ.task e.1).out <;> simp [hout, outIsPanic] at h2 ⊢
+    · split at hslot <;> simp at hslot
+  · intro ⟨t, hp, hsc, hout⟩
+    have hm := failed_task_in_log hr hs htg t hp hsc (by simp [hout])
+    simp [hout, outIsPanic] at hm
+    have hany : (σ.scope s).errLog.any (fun e => e.2) = true := List.any_eq_true.mpr ⟨(t, true), hm, rfl⟩
+    have hsl : (σ.scope s).slot = .panic := by rw [hslot]; simp [slotOf, hany]
+    rw [hres]; simp [resOf, hsl]
+
+/-- the `root_task_result.unwrap()` at the end of `run` never panics: when the error slot is empty the root returned `Ok` -/
+theorem unwrap_never_panics {σ : State} (hr : Reach σ) {s : Nat} {r : Res} (hg : enabled σ (.ret s r) = true) :
+    r ≠ .unwrapPanic := by
+  intro hrv
+  have hI := hr.inv
+  have hg' := hg
+  simp [enabled] at hg
+  obtain ⟨⟨hl, htg⟩, hres⟩ := hg
+  have hs : (σ.scope s).phase ≠ .absent := by simp [hl]
+  have hroot := hI.d.root_scope s hs
+  rw [hrv] at hres
+  cases hsl : (σ.scope s).slot with
+  | err t v => simp [resOf, hsl] at hres
+  | panic => simp [resOf, hsl] at hres
+  | empty =>
+    simp [resOf, hsl] at hres
+    have hlog : (σ.scope s).errLog = [] := (slotOf_eq_empty _ _).mp ((hI.b.slot_eq s) ▸ hsl)
+    have := failed_task_in_log hr hs htg _ hroot.2 hroot.1 hres
+    simp [hlog] at this
+
+
+/-- the `set_err` calls on the state of scope `s` in a log, in log order -/
+def seterrsOf (s : Nat) : List Event → List (Nat × Bool)
+  | [] => []
+  | .seterr s' t p _ _ :: es => if s' = s then (t, p) :: seterrsOf s es else seterrsOf s es
+  | _ :: es => seterrsOf s es
+
+theorem errLog_step {σ : State} (hI : Inv σ) {e : Event} (hg : enabled σ e = true) (s : Nat) :
+    ((apply σ e).scope s).errLog = (σ.scope s).errLog ++ seterrsOf s [e] := by
+  cases e with
+  | ctxnew c p d => simp [seterrsOf, apply]
+  | obs _ _ => simp [seterrsOf, apply]
+  | advance d => simp [seterrsOf, apply]
+  | endT t o v => simp [seterrsOf, apply]
+  | tgd s' => simp only [seterrsOf, apply, setScope_scope, List.append_nil]; split <;> simp_all
+  | rgd s' => simp only [seterrsOf, apply, setScope_scope, List.append_nil]; split <;> simp_all
+  | cgd s' c => simp only [seterrsOf, apply, causeCtx_scope, setScope_scope, List.append_nil]; split <;> simp_all
+  | cancel s' t c => simp only [seterrsOf, apply, causeCtx_scope, setScope_scope, List.append_nil]; split <;> simp_all
+  | ret s' r =>
+    have e2 : (apply σ (.ret s' r)).scope = fun i => if i = s' then { σ.scope s' with phase := .returned, result := some r } else σ.scope i := by
+      simp only [apply]; split <;> rfl
+    rw [e2]; simp only [seterrsOf, List.append_nil]; split <;> simp_all
+  | make s' c p o r =>
+    simp [enabled] at hg
+    have hal := hI.b.absent_log s' hg.1.1.1.1.1
+    have e2 : (apply σ (.make s' c p o r)).scope = fun i => if i = s' then ({ phase := .live, ctx := c, pctx := p, owner := o, root := r, rgHeld := true, mainLow := 1, termLow := 2 } : Scope) else σ.scope i := by
+      simp only [apply]; cases o <;> rfl
+    rw [e2]; simp only [seterrsOf, List.append_nil]; split <;> simp_all
+  | spawn p c r => simp only [seterrsOf, apply, addTask_scope, setScope_scope, List.append_nil]; split <;> simp_all
+  | start c m =>
+    simp only [seterrsOf, apply, setTask_scope, setScope_scope, List.append_nil]
+    split
+    · subst_vars; split
+      · rfl
+      · split <;> rfl
+    · rfl
+  | rel t =>
+    simp only [seterrsOf, apply, setTask_scope, setScope_scope, List.append_nil]
+    split
+    · subst_vars; split <;> rfl
+    · rfl
+  | seterr s' t ip st cc =>
+    have e2 : (apply σ (.seterr s' t ip st cc)).scope = fun i => if i = s' then
+        { σ.scope s' with slot := if st then (if ip then Slot.panic else Slot.err t (σ.task t).val) else (σ.scope s').slot,
+                          errLog := (σ.scope s').errLog ++ [(t, ip)] } else σ.scope i := by
+      simp only [apply]; split <;> rfl
+    rw [e2]; simp only [seterrsOf]
+    by_cases hs : s = s'
+    · subst hs; simp
+    · have : ¬ s' = s := fun hh => hs hh.symm
+      simp [hs, this]
+
+theorem seterrsOf_cons (s : Nat) (e : Event) (es : List Event) :
+    seterrsOf s (e :: es) = seterrsOf s [e] ++ seterrsOf s es := by
+  cases e <;> simp [seterrsOf]
+  split <;> simp
+
+/-- **`errLog_is_trace_order`** — the ghost sequence `errLog` the result theorems talk about is exactly the sequence
+of `set_err` critical sections on the scope's state in the order of the log (the linearisation order of the `err`
+mutex). So "first in `errLog`" is "first `set_err` in the run". -/
+theorem errLog_is_trace_order {es : List Event} {σ : State} (hrun : run init es = some σ) (s : Nat) :
+    (σ.scope s).errLog = seterrsOf s es := by
+  have key : ∀ (es : List Event) (σ0 σ : State), Inv σ0 → run σ0 es = some σ →
+      (σ.scope s).errLog = (σ0.scope s).errLog ++ seterrsOf s es := by
+    intro es
+    induction es with
+    | nil => intro σ0 σ _ h; simp [run] at h; subst h; simp [seterrsOf]
+    | cons e es ih =>
+      intro σ0 σ hI h
+      rw [run_cons] at h
+      split at h
+      · rename_i hg
+        rw [ih _ _ (inv_step hI hg) h, errLog_step hI hg, seterrsOf_cons s e es, List.append_assoc]
+      · simp at h
+  have := key es init σ inv_init hrun
+  simpa [init] using this
+
+
+/-! ## 3. Cancellation: on the first failure, when the main tasks are done, from the caller / deadline; reaches
+every descendant; is never observed without a cause -/
+
+/-- the context of a present scope is its own nearest ancestor, so a cause on it makes it effectively cancelled -/
+theorem eff_of_cause {σ : State} (hr : Reach σ) {c : Nat} (hp : (σ.ctx c).present = true)
+    (hc : (σ.ctx c).cause = true) : eff σ c = true := by
+  unfold eff
+  exact List.any_eq_true.mpr ⟨c, hr.inv.c.anc_self c hp, by simp [hc]⟩
+
+/-- **`cancel_on_first_failure`** — (a) the `set_err` critical section that writes the error slot cancels the scope's
+context *inside the same critical section* (a stored `set_err` without the cancel is not a behaviour of the model:
+the event is disabled unless `canceled = stored`), so immediately after it the context is cancelled; (b) in every
+reachable state: error slot non-empty ⇒ the scope's context is cancelled. -/
+theorem cancel_on_first_failure {σ : State} (hr : Reach σ) {s : Nat} (hs : (σ.scope s).phase ≠ .absent)
+    (hslot : (σ.scope s).slot ≠ .empty) :
+    (σ.ctx (σ.scope s).ctx).cause = true ∧ eff σ (σ.scope s).ctx = true := by
+  have hc := hr.inv.c.cause_of s hs (Or.inl hslot)
+  exact ⟨hc, eff_of_cause hr (hr.inv.c.scope_ctx s hs).1 hc⟩
+
+theorem set_err_cancels_at_once {σ : State} {s t : Nat} {ip cc : Bool}
+    (hg : enabled σ (.seterr s t ip true cc) = true) :
+    cc = true ∧ ((apply σ (.seterr s t ip true cc)).ctx (σ.scope s).ctx).cause = true ∧
+      ((apply σ (.seterr s t ip true cc)).scope s).slot ≠ .empty := by
+  simp [enabled] at hg
+  refine ⟨hg.2, ?_, ?_⟩
+  · simp [apply]
+  · simp only [apply, if_true, setTask_scope, causeCtx_scope, setScope_scope]
+    split <;> simp
+
+/-- the first failing task's `set_err` is always stored (the slot is still empty), hence always cancels -/
+theorem first_set_err_is_stored {σ : State} {s t : Nat} {ip st cc : Bool}
+    (hg : enabled σ (.seterr s t ip st cc) = true) (hempty : (σ.scope s).slot = .empty) : st = true ∧ cc = true := by
+  simp [enabled, hempty, shouldStore] at hg
+  exact ⟨hg.1.2, by rw [hg.2, hg.1.2]⟩
+
+/-- **`cancel_when_main_done`** — `CancelGuard::drop` (which cancels the context: the event is disabled unless it does)
+is enabled exactly when the run guard has been dropped and every started main task has announced the release of its
+guard; until it has run, the scope cannot terminate. After it the context is cancelled. -/
+theorem cancel_when_main_done {σ : State} (hr : Reach σ) {s : Nat} (hl : (σ.scope s).phase = .live) :
+    (enabled σ (.cgd s true) = true ↔
+      (σ.scope s).cgd = false ∧ (σ.scope s).rgHeld = false ∧
+        ∀ t, (σ.task t).phase ≠ .absent → (σ.task t).scope = s → (σ.task t).main = true →
+          (σ.task t).phase = .pending ∨ (σ.task t).phase = .released) ∧
+    (enabled σ (.cgd s false) = false) ∧
+    ((σ.scope s).cgd = false → enabled σ (.tgd s) = false) ∧
+    ((σ.scope s).cgd = true → (σ.ctx (σ.scope s).ctx).cause = true ∧ eff σ (σ.scope s).ctx = true) := by
+  have hA := hr.inv.a
+  have hne : (σ.scope s).phase ≠ .absent := by simp [hl]
+  have hte := hA.termLow_eq s hne
+  refine ⟨?_, by simp [enabled], ?_, ?_⟩
+  · simp only [enabled, hl, Bool.and_eq_true, beq_self_eq_true, true_and, Bool.not_eq_true', beq_iff_eq, Bool.and_true,
+      decide_eq_true_eq]
+    constructor
+    · intro ⟨⟨hnc, hm0⟩, _⟩
+      have ⟨hrg, hmain⟩ := (hA.mainLow_zero_iff hne).mp hm0
+      refine ⟨hnc, hrg, ?_⟩
+      intro t hp hsc hm
+      have := hmain t ((hA.mem_iff t).mpr hp)
+      cases hph : (σ.task t).phase <;> simp [holdsMain, hsc, hm, hph] at this hp ⊢
+    · intro ⟨hnc, hrg, hall⟩
+      refine ⟨⟨hnc, (hA.mainLow_zero_iff hne).mpr ⟨hrg, ?_⟩⟩, by simp [hnc] at hte; omega⟩
+      intro t ht
+      have hp := (hA.mem_iff t).mp ht
+      by_cases hsc : (σ.task t).scope = s
+      · cases hm : (σ.task t).main with
+        | false => simp [holdsMain, hm]
+        | true => rcases hall t hp hsc hm with h | h <;> simp [holdsMain, h]
+      · simp [holdsMain, hsc]
+  · intro hnc
+    simp [hnc] at hte
+    simp [enabled]
+    intro _ _; omega
+  · intro hc
+    have := hr.inv.c.cause_of s hne (Or.inr (Or.inl hc))
+    exact ⟨this, eff_of_cause hr (hr.inv.c.scope_ctx s hne).1 this⟩
+
+/-- when `run!` returns, the scope's context has been cancelled (whatever the outcome) -/
+theorem cancelled_at_return {σ : State} (hr : Reach σ) {s : Nat} {r : Res} (hg : enabled σ (.ret s r) = true) :
+    eff σ (σ.scope s).ctx = true := by
+  simp [enabled] at hg
+  have hne : (σ.scope s).phase ≠ .absent := by simp [hg.1.1]
+  have hc := (hr.inv.a.tgd_term s hg.1.2).2
+  have := hr.inv.c.cause_of s hne (Or.inr (Or.inl hc))
+  exact eff_of_cause hr (hr.inv.c.scope_ctx s hne).1 this
+
+/-- **`cancel_from_parent_or_deadline`** — a context is (effectively) cancelled exactly when `cancel()` was called on
+it or on one of its ancestors, or the deadline of it or of one of its ancestors has passed. -/
+theorem cancel_from_parent_or_deadline (σ : State) (c : Nat) :
+    eff σ c = true ↔ ∃ a ∈ (σ.ctx c).anc, (σ.ctx a).cause = true ∨ deadlinePassed σ a = true := by
+  unfold eff
+  simp [List.any_eq_true]
+
+/-- the scope's context is a child of the caller's context: the caller's cancellation (or deadline) cancels the scope -/
+theorem cancel_from_caller {σ : State} (hr : Reach σ) {s : Nat} (hs : (σ.scope s).phase ≠ .absent)
+    (hc : eff σ (σ.scope s).pctx = true) : eff σ (σ.scope s).ctx = true := by
+  have h := (hr.inv.c.scope_ctx s hs).2.2.2
+  unfold eff at hc ⊢
+  rw [h]
+  simp only [List.any_cons, Bool.or_eq_true]
+  exact Or.inr hc
+
+/-- **`cancel_reaches_descendants`** — if a context is cancelled, every descendant context (to any depth: contexts of
+nested scopes, `with_deadline` children, their children …) is cancelled. -/
+theorem cancel_reaches_descendants {σ : State} (hr : Reach σ) {c a : Nat} (hp : (σ.ctx c).present = true)
+    (ha : a ∈ (σ.ctx c).anc) (hc : eff σ a = true) : eff σ c = true := by
+  obtain ⟨b, hb, hcause⟩ := (cancel_from_parent_or_deadline σ a).mp hc
+  have := (hr.inv.c.anc_closed c a hp ha).2 b hb
+  exact (cancel_from_parent_or_deadline σ c).mpr ⟨b, this, hcause⟩
+
+/-- the context of a nested scope is a descendant of the context of the enclosing scope's caller chain: every
+ancestor of the caller's context is an ancestor of the scope's context -/
+theorem scope_ctx_below_caller {σ : State} (hr : Reach σ) {s : Nat} (hs : (σ.scope s).phase ≠ .absent) :
+    ∀ a ∈ (σ.ctx (σ.scope s).pctx).anc, a ∈ (σ.ctx (σ.scope s).ctx).anc := by
+  intro a ha
+  rw [(hr.inv.c.scope_ctx s hs).2.2.2]
+  exact List.mem_cons_of_mem _ ha
+
+/-- **`observed_cancellation_has_cause`** — a task can observe its context cancelled only after a cause has been
+logged: on the context or one of its ancestors the deadline has passed, or it is the context of a scope in which a
+task has failed (error slot non-empty), whose `CancelGuard` was dropped (all main tasks done), or on which
+`Scope::cancel` was called. -/
+theorem observed_cancellation_has_cause {σ : State} (hr : Reach σ) {t c : Nat} (hg : enabled σ (.obs t c) = true) :
+    ∃ a ∈ (σ.ctx c).anc, deadlinePassed σ a = true ∨
+      ∃ s, (σ.scope s).phase ≠ .absent ∧ (σ.scope s).ctx = a ∧
+        ((σ.scope s).slot ≠ .empty ∨ (σ.scope s).cgd = true ∨ (σ.scope s).explicit = true) := by
+  simp [enabled] at hg
+  obtain ⟨a, ha, hcause⟩ := (cancel_from_parent_or_deadline σ c).mp hg.2
+  refine ⟨a, ha, ?_⟩
+  rcases hcause with h | h
+  · exact Or.inr (hr.inv.c.cause_origin a h)
+  · exact Or.inl h
+
+/-! ## 4. Main tasks and background tasks -/
+
+/-- **`spawn_after_main_done_is_background`** — once the `CancelGuard` has been dropped (or an `upgrade` has been seen
+to fail) no task of the scope starts as a main task any more: `main_task()` falls back to a background task. -/
+theorem spawn_after_main_done_is_background {σ : State} (hr : Reach σ) {c : Nat}
+    (hclosed : (σ.scope (σ.task c).scope).cgd = true ∨ (σ.scope (σ.task c).scope).mainClosed = true) :
+    enabled σ (.start c true) = false := by
+  have hmc : (σ.scope (σ.task c).scope).mainClosed = true := by
+    rcases hclosed with h | h
+    · exact hr.inv.a.cgd_closed _ h
+    · exact h
+  simp [enabled, hmc]
+
+/-- a task spawned with `spawn` by `run` itself (the root) or by a main task always is a main task -/
+theorem main_spawned_by_main_is_main {σ : State} {c : Nat} (hreq : (σ.task c).reqMain = true)
+    (hg : enabled σ (.start c false) = true) :
+    ∃ p, (σ.task c).parent = some p ∧ (σ.task p).main = false := by
+  simp [enabled, hreq] at hg
+  cases hp : (σ.task c).parent with
+  | none => simp [hp] at hg
+  | some p => simp [hp] at hg; exact ⟨p, rfl, hg.2.2⟩
+
+/-- `bg_task()`'s `terminate_guard.upgrade().unwrap()` never panics: while a task of the scope is running (only a
+running task can spawn) the `TerminateGuard` has not been dropped -/
+theorem spawn_never_after_terminated {σ : State} (hr : Reach σ) {p c : Nat} {m : Bool}
+    (hg : enabled σ (.spawn p c m) = true) :
+    (σ.scope (σ.task p).scope).tgd = false ∧ (σ.scope (σ.task p).scope).phase = .live := by
+  simp [enabled] at hg
+  exact ⟨hr.inv.a.active_not_tgd p (Or.inr (Or.inl hg.1.1)), hr.inv.a.active_live p (Or.inr (Or.inl hg.1.1))⟩
+
+
+/-! ## Non-vacuity: concrete accepted logs meet the hypotheses (tests of the statements, not the proofs) -/
+
+/-- root 1 (main) spawns 2 (main, fails with 7) and 3 (background, waits for the cancellation, returns 5) -/
+def exLog : List Event :=
+  [.make 0 1 0 none 1, .rgd 0, .start 1 true, .spawn 1 2 true, .spawn 1 3 false, .start 2 true, .start 3 false,
+   .endT 2 .err 7, .seterr 0 2 false true true, .rel 2, .obs 3 1, .endT 3 .ok 5, .rel 3, .endT 1 .ok 9, .rel 1,
+   .cgd 0 true, .tgd 0]
+
+/-- the log is accepted and `run!` may then return `Err(7)` — and nothing else -/
+example : ∃ σ, run init exLog = some σ ∧ Reach σ ∧ enabled σ (.ret 0 (.err 7)) = true ∧
+    enabled σ (.ret 0 (.ok 9)) = false ∧ (σ.task 3).phase ≠ .absent ∧ Under σ 0 3 :=
+  ⟨_, rfl, ⟨exLog, rfl⟩, by decide, by decide, by decide, .direct 3 (by decide)⟩
+
+/-- returning before the background task has released its guard is not a behaviour: after dropping `rel 3 … tgd`
+from the log neither `tgd` nor `ret` is enabled -/
+example : ∃ σ, run init (exLog.take 11) = some σ ∧ enabled σ (.tgd 0) = false ∧ enabled σ (.ret 0 (.err 7)) = false ∧
+    enabled σ (.cgd 0 true) = false :=
+  ⟨_, rfl, by decide, by decide, by decide⟩
+
+/-- a second failure is not stored, a panic is: `set_err` must report `stored = false` for a second error -/
+example : ∃ σ, run init (exLog.take 9 ++ [.endT 3 .err 4]) = some σ ∧
+    enabled σ (.seterr 0 3 false false false) = true ∧ enabled σ (.seterr 0 3 false true true) = false :=
+  ⟨_, rfl, by decide, by decide⟩
+
+/-- nested scope under a deadline context: the clock passes the deadline of context 2 (child of the root's scope
+context 1), the task of the nested scope (context 3, child of 2) observes the cancellation; the nested scope joins
+before the outer task ends, the outer before its `run!` returns -/
+def exNested : List Event :=
+  [.make 0 1 0 none 1, .rgd 0, .start 1 true, .ctxnew 2 1 (some 10), .make 1 3 2 (some 1) 2, .rgd 1, .start 2 true,
+   .advance 10, .obs 2 3, .endT 2 .panic 0, .seterr 1 2 true true true, .rel 2, .cgd 1 true, .tgd 1, .ret 1 .panic,
+   .endT 1 .panic 0, .seterr 0 1 true true true, .rel 1, .cgd 0 true, .tgd 0]
+
+example : ∃ σ, run init exNested = some σ ∧ Reach σ ∧ enabled σ (.ret 0 .panic) = true ∧
+    (σ.scope 1).phase = .returned ∧ Under σ 0 2 ∧ (σ.task 2).phase = .released ∧
+    2 ∈ (σ.ctx 3).anc ∧ eff σ 2 = true ∧ (σ.ctx 3).present = true :=
+  ⟨_, rfl, ⟨exNested, rfl⟩, by decide, by decide, .nested 2 1 (by decide) (.direct 1 (by decide)), by decide,
+   by decide, by decide, by decide⟩
+
+/-- the nested task cannot observe a cancellation before the clock is advanced (no cause yet) -/
+example : ∃ σ, run init (exNested.take 7) = some σ ∧ enabled σ (.obs 2 3) = false ∧
+    enabled σ (.endT 1 .ok 0) = false :=
+  ⟨_, rfl, by decide, by decide⟩
+
+/-- a main-requested task spawned by a background task after the `CancelGuard` was dropped starts as a background task -/
+example : ∃ σ, run init [.make 0 1 0 none 1, .rgd 0, .start 1 true, .spawn 1 2 false, .start 2 false, .endT 1 .ok 1,
+      .rel 1, .cgd 0 true, .spawn 2 3 true] = some σ ∧
+    enabled σ (.start 3 true) = false ∧ enabled σ (.start 3 false) = true ∧ enabled σ (.tgd 0) = false :=
+  ⟨_, rfl, by decide, by decide, by decide⟩
+
 end EraVerif.Props.C17
